@@ -3,7 +3,8 @@
 From Coq Require Import List ZArith.
 From LV Require Import Reactive.Graph Reactive.Effects Reactive.GraphInvariant Reactive.GraphPullBase
                        Reactive.GraphPullDefs Reactive.GraphProofs Reactive.EffectsProofs
-                       Reactive.EffectsRunProofs Reactive.EffectsOrderProofs Reactive.ConvergeProofs.
+                       Reactive.EffectsRunProofs Reactive.EffectsOrderProofs Reactive.ConvergeProofs
+                       Reactive.GraphRun Reactive.OwnerTreeExamples.
 Import ListNotations.
 Close Scope Z_scope.
 Open Scope nat_scope.
@@ -17,10 +18,17 @@ Open Scope nat_scope.
     memo it tracked is Clean with a consistent cone.
     Known class excluded: [self_feeding p] — some effect writes a signal of its own static cone
     (finding F-C02-d, open; refuted for that class by [C02_self_feeding_refuted] below).
+    [par] is the (static) tree of owners the effects were created under, any tree; pause / resume
+    / dispose act on subtrees of it (theorems [C02_pause_reaches_descendants] ... below).
+    [selw] marks the internal effects of selectors.  A Selector (computed/selector.rs) is modelled
+    as a program transformation into cells, triggers and an internal RenderEffect (GraphRun.v);
+    that effect keeps its previous value in a cell it reads and writes, so a program with a
+    selector lies in the class [self_feeding] as defined here and is NOT covered by this theorem:
+    the selector part is compared with the code (traces) and checked by the Python oracle only.
     Not modelled: effects created by other effects at run time. *)
 Theorem C02_idle_converged_except_known :
-  forall p, wf_prog p -> ~ self_feeding p ->
-  forall ops e, wf_ops p ops -> let s := run_fixed p ops in
+  forall p par selw, wf_prog p -> ~ self_feeding p ->
+  forall ops e, wf_ops p ops -> let s := run_fixed p par selw ops in
   ready s = [] -> halted s = false -> effb p e = true ->
   ealive (getn s e) = true -> emissed (getn s e) = false ->
   EffectConverged p s e.
@@ -34,7 +42,7 @@ Proof. exact p_self_is_self_feeding. Qed.
 Print Assumptions C02_known_class_witness.
 
 Theorem C02_relay_converges :
-  let s := run_fixed p_relay ops_relay in
+  let s := run_flat p_relay ops_relay in
   ready s = [] /\ halted s = false /\ sval (getn s 1) = 6%Z /\
   last_log s 4 = [(3, 12%Z, true)] /\ last_log s 2 = [(0, 5%Z, true)].
 Proof. exact relay_converges. Qed.
@@ -42,10 +50,10 @@ Print Assumptions C02_relay_converges.
 
 (** between operations no task is unspawned or in the middle of a poll *)
 Theorem C02_tasks_at_rest_between_operations :
-  forall p, wf_prog p -> no_self_feed p ->
+  forall p par selw, wf_prog p -> no_self_feed p ->
   forall ops, wf_ops p ops ->
-  halted (run_fixed p ops) = true \/
-  forall e, effb p e = true -> epoll (getn (run_fixed p ops) e) = false.
+  halted (run_fixed p par selw ops) = true \/
+  forall e, effb p e = true -> epoll (getn (run_fixed p par selw ops) e) = false.
 Proof. exact reachable_at_rest. Qed.
 Print Assumptions C02_tasks_at_rest_between_operations.
 
@@ -65,18 +73,61 @@ Theorem C02_no_glitch_in_run :
 Proof. exact read_in_run_consistent. Qed.
 Print Assumptions C02_no_glitch_in_run.
 
-(** [paused_never_runs]: polling the task of an effect under a paused owner starts no body,
-    whatever its flags and for any update_if_necessary *)
+(** [paused_never_runs]: polling the task of an effect whose owner's [paused] flag is up starts no
+    body, whatever its flags and for any update_if_necessary ([poll_sched]: what the executor does
+    with a task taken from the run queue) *)
 Theorem C02_paused_never_runs :
-  forall p chk e s, epaused (getn s e) = true -> only_diverge s (poll_task p chk e s).
-Proof. exact paused_never_runs. Qed.
+  forall p selw chk e s, epaused (getn s e) = true -> only_diverge s (poll_sched p selw chk e s).
+Proof. exact paused_never_runs_sched. Qed.
 Print Assumptions C02_paused_never_runs.
+
+(** the owner tree: Owner::pause on the owner effect [o] was created under raises, and
+    Owner::resume on it clears, the flag of EVERY effect [e] created under that owner or under
+    any of its descendants ([under par o e]; [wf_par]: an owner is created after its parent),
+    whether or not the owners in between were paused themselves; nobody else's flag changes.
+    Hence an effect paused through an inner owner and resumed through an outer one is polled as
+    an unpaused effect from then on. *)
+Theorem C02_pause_reaches_descendants :
+  forall p par b o e s, wf_par par -> under p par o e -> e < length p -> e < length (nodes s) ->
+  epaused (getn (set_paused_tree p par b o s) e) = b.
+Proof. exact set_paused_tree_reaches. Qed.
+Print Assumptions C02_pause_reaches_descendants.
+
+Theorem C02_pause_leaves_others :
+  forall p par b o e s, ~ In e (subtree p par (length p) o) ->
+  epaused (getn (set_paused_tree p par b o s) e) = epaused (getn s e).
+Proof. exact set_paused_tree_others. Qed.
+Print Assumptions C02_pause_leaves_others.
+
+(** on a tree of depth 3 (effect, under it an effect, under that a RenderEffect): the innermost
+    owner is paused, a write is consumed without a run, the OUTERMOST owner is resumed, and the
+    next write reaches the inner effect: at idle its last run shows the current value *)
+Theorem C02_resume_of_ancestor_reaches_inner_effect :
+  let s := run_fixed p_tree par_tree no_sel ops_tree in
+  ready s = [] /\ halted s = false /\ epaused (getn s 4) = false /\ emissed (getn s 4) = false /\
+  last_log s 4 = [(1, 2%Z, true)].
+Proof. exact resume_ancestor_reaches_inner. Qed.
+Print Assumptions C02_resume_of_ancestor_reaches_inner_effect.
+
+(** selectors (compared, not proved): the model of Selector::new_with_fn(same bucket of ten) with
+    an effect reading selected(10) while the source goes 3 -> 15 -> 27: the reader runs three
+    times and sees 0, 1, 0; and the transformed program lies in the class [self_feeding], which
+    is why [C02_idle_converged_except_known] does not speak about selectors *)
+Theorem C02_selector_model_notifies_coarse_comparator :
+  filter (fun e => match e with EvEnd 5 _ => true | _ => false end) (snd (run_trace c_sel)) =
+  [EvEnd 5 0%Z; EvEnd 5 1%Z; EvEnd 5 0%Z].
+Proof. exact selector_bucket_runs. Qed.
+Print Assumptions C02_selector_model_notifies_coarse_comparator.
+
+Theorem C02_selector_model_in_excluded_class : self_feeding (fst (run_trace c_sel)).
+Proof. exact selector_is_in_excluded_class. Qed.
+Print Assumptions C02_selector_model_in_excluded_class.
 
 (** [disposed_never_runs]: after its owner is cleaned up, the next poll ends the task without
     running anything, and marks no longer reach it *)
 Theorem C02_disposed_never_runs :
-  forall p chk e s, ealive (getn s e) = false -> trace (poll_task p chk e s) = trace s.
-Proof. exact disposed_never_runs. Qed.
+  forall p selw chk e s, ealive (getn s e) = false -> trace (poll_sched p selw chk e s) = trace s.
+Proof. exact disposed_never_runs_sched. Qed.
 Print Assumptions C02_disposed_never_runs.
 
 Theorem C02_dead_effect_ignores_marks :
@@ -117,14 +168,14 @@ Print Assumptions C02_idle_effect_converged.
 (** F-C02-c on the code before the fix (effect reads m3 then m2, m3 absorbs m2's change): idle,
     yet the effect's last run shows m2 = 2 while m2 is 4 *)
 Theorem C02_lost_update_prefix_refuted :
-  let s := run_prefix_c p_lost ops_c in
+  let s := run_prefix_c p_lost no_par no_sel ops_c in
   ready s = [] /\ last_log s 3 = [(2, 1%Z, true); (1, 2%Z, true)] /\
   cache (getn (fst (read_top p_lost 1 s)) 1) = Some 4%Z.
 Proof. exact lost_update_prefix_refuted. Qed.
 Print Assumptions C02_lost_update_prefix_refuted.
 
 Theorem C02_lost_update_fixed :
-  let s := run_fixed p_lost ops_c in
+  let s := run_flat p_lost ops_c in
   ready s = [] /\ last_log s 3 = [(2, 1%Z, true); (1, 4%Z, true)].
 Proof. exact lost_update_fixed. Qed.
 Print Assumptions C02_lost_update_fixed.
@@ -132,20 +183,20 @@ Print Assumptions C02_lost_update_fixed.
 (** F-C02-a on the code before the fix (paused effect, write through WriteSignal, resume): the
     write made after resume never reaches the effect *)
 Theorem C02_resume_then_write_prefix_refuted :
-  let s := run_prefix_a p_take ops_a in
+  let s := run_prefix_a p_take no_par no_sel ops_a in
   ready s = [] /\ last_log s 1 = [(0, 1%Z, true)] /\ sval (getn s 0) = 3%Z.
 Proof. exact resume_prefix_refuted. Qed.
 Print Assumptions C02_resume_then_write_prefix_refuted.
 
 Theorem C02_resume_then_write_fixed :
-  let s := run_fixed p_take ops_a in
+  let s := run_flat p_take ops_a in
   ready s = [] /\ last_log s 1 = [(0, 3%Z, true)].
 Proof. exact resume_fixed. Qed.
 Print Assumptions C02_resume_then_write_fixed.
 
 (** F-C02-d (open): a self-feeding effect ends, idle, with a stale first read of j *)
 Theorem C02_self_feeding_refuted :
-  let s := run_fixed p_self [ORead 2; ORun] in
+  let s := run_flat p_self [ORead 2; ORun] in
   ready s = [] /\ last_log s 3 = [(1, 1%Z, true); (1, 1%Z, true); (2, 5%Z, true)] /\
   cache (getn s 1) = Some 5%Z.
 Proof. exact self_feeding_refuted. Qed.
